@@ -70,7 +70,12 @@ def cmd_import(a):
     d = os.path.join(VERIF, "seeded", a.name)
     os.makedirs(d, exist_ok=True)
     shutil.copy(os.path.join(a.worktree, "seed%s.diff" % a.k), os.path.join(d, "patch.diff"))
-    shutil.copy(os.path.join(a.worktree, "demo%s.py" % a.k), os.path.join(d, "demo.py"))
+    src = open(os.path.join(a.worktree, "demo%s.py" % a.k)).read()
+    wt = a.worktree.rstrip("/")
+    repl = "__import__('os').environ.get('EQSIG_ROOT', '%s')" % wt
+    # the demo may assert that eqsig was imported from the sub-agent's worktree; make that path overridable (no other edit)
+    src = src.replace("'%s'" % wt, repl).replace('"%s"' % wt, repl).replace("'%s/'" % wt, repl).replace('"%s/"' % wt, repl)
+    open(os.path.join(d, "demo.py"), "w").write(src)
     rc, head = sh(["git", "-C", REPO, "rev-parse", "--short", "HEAD"])
     m = {"name": a.name, "property": a.prop.upper(), "breaks": a.prop.upper(), "needs_to_manifest": a.needs or "",
          "base_commit": head.strip(), "origin": "independent sub-agent given only the property text and a scratch worktree",
@@ -86,14 +91,14 @@ def cmd_verify(a):
     demo = os.path.join(d, "demo.py")
     res = {}
     with Scratch(patch) as s:
-        env = dict(os.environ, PYTHONPATH=s, PYTHONDONTWRITEBYTECODE="1")
+        env = dict(os.environ, PYTHONPATH=s, PYTHONDONTWRITEBYTECODE="1", EQSIG_ROOT=s)
         rc, out = sh([PY, "-m", "pytest", "-q", "-p", "no:cacheprovider", "tests"], cwd=s, env=env)
         res["suite_with_patch"] = "pass" if rc == 0 else "FAIL: " + out[-300:]
         rc, out = sh([PY, demo], cwd=s, env=env, timeout=1200)
         res["demo_with_patch_rc"] = rc
         res["demo_with_patch_tail"] = out[-400:]
     with Scratch(None) as s:
-        env = dict(os.environ, PYTHONPATH=s, PYTHONDONTWRITEBYTECODE="1")
+        env = dict(os.environ, PYTHONPATH=s, PYTHONDONTWRITEBYTECODE="1", EQSIG_ROOT=s)
         rc, out = sh([PY, demo], cwd=s, env=env, timeout=1200)
         res["demo_clean_rc"] = rc
         res["demo_clean_tail"] = out[-300:]
